@@ -61,6 +61,66 @@ def serialize_field_order(fx, adt):
     return None, None
 
 
+_KEEPS = {0: ("list", "tuple"), 1: ("list", "tuple"), 2: ("bytes",)}
+
+
+def _py_result_passthrough(fn):
+    """Straight-line provenance of the returned value: the decoded wire tuple, or its three components in order,
+    each untouched or passed through a content-preserving constructor (list/tuple for the sequences, bytes for the
+    literal buffer: payload ranges are byte offsets into it)."""
+    env = {}
+
+    def ev(e):
+        if isinstance(e, ast.Name):
+            return env.get(e.id, "other")
+        if isinstance(e, ast.Call):
+            if isinstance(e.func, ast.Name) and e.func.id == "_lex_program_from_str":
+                return "wire"
+            if isinstance(e.func, ast.Attribute) and e.func.attr == "decode" and len(e.args) == 1 and not e.keywords \
+                    and ev(e.args[0]) == "wire":
+                return "decoded"
+            if isinstance(e.func, ast.Name) and len(e.args) == 1 and not e.keywords:
+                a = ev(e.args[0])
+                if isinstance(a, tuple) and a[0] == "comp" and e.func.id in _KEEPS.get(a[1], ()):
+                    return a
+            return "other"
+        if isinstance(e, ast.Subscript) and ev(e.value) == "decoded" and isinstance(e.slice, ast.Constant) and isinstance(e.slice.value, int):
+            return ("comp", e.slice.value)
+        if isinstance(e, ast.Tuple):
+            return ("tuple", tuple(ev(x) for x in e.elts))
+        return "other"
+    ret = None
+    for st_ in fn.body:
+        if isinstance(st_, ast.Expr):
+            continue   # docstring
+        if isinstance(st_, ast.Assign) and len(st_.targets) == 1:
+            v = ev(st_.value)
+            t = st_.targets[0]
+            if isinstance(t, ast.Name):
+                env[t.id] = v
+                continue
+            if isinstance(t, ast.Tuple) and all(isinstance(x, ast.Name) for x in t.elts):
+                for i, x in enumerate(t.elts):
+                    env[x.id] = ("comp", i) if v == "decoded" else (v[1][i] if isinstance(v, tuple) and v[0] == "tuple" and i < len(v[1]) else "other")
+                continue
+            return False, "statement `%s` is outside the straight-line forms the rule can follow" % ast.unparse(st_)[:80]
+        if isinstance(st_, ast.AnnAssign) and isinstance(st_.target, ast.Name) and st_.value is not None:
+            env[st_.target.id] = ev(st_.value)
+            continue
+        if isinstance(st_, ast.Return):
+            ret = st_
+            break
+        return False, "statement `%s` is outside the straight-line forms the rule can follow" % ast.unparse(st_)[:80]
+    if ret is None or ret.value is None:
+        return False, "lex_program_from_str does not return the decoded result"
+    v = ev(ret.value)
+    if v == "decoded" or v == ("tuple", (("comp", 0), ("comp", 1), ("comp", 2))):
+        return True, "the wrapper returns the decoded tokens, errors and literal buffer as the extension produced them"
+    return False, ("the wrapper returns `%s`: a component of the result is converted after decoding (provenance %s); payload "
+                   "ranges are byte offsets into the *bytes* buffer and token offsets describe the decoded records"
+                   % (ast.unparse(ret.value)[:80], v))
+
+
 def run(cx):
     cx.rules_run += ["R-WIRE", "R-ENUMS", "R-PY-SOURCE"]
     fpy = cx.facts("py", crate="_sas_lexer_rust")
@@ -185,6 +245,13 @@ def run(cx):
                 else:
                     okp, whyp = True, "the wrapper passes its parameter `%s` to the extension unchanged" % calls[0].args[0].id
     cx.ob("R-PY-SOURCE", "python-passthrough", okp, "src/sas_lexer/lexer.py", whyp)
+    # --- Python side: what the wrapper returns is what the extension produced, component by component --
+    okr, whyr = False, "lex_program_from_str not found in src/sas_lexer/lexer.py"
+    if tree is not None:
+        for node in ast.walk(tree):
+            if isinstance(node, ast.FunctionDef) and node.name == "lex_program_from_str":
+                okr, whyr = _py_result_passthrough(node)
+    cx.ob("R-PY-SOURCE", "python-result-passthrough", okr, "src/sas_lexer/lexer.py", whyr)
     cx.count("R-WIRE", "fields", nfields)
     cx.count("R-ENUMS", "values", nvals)
     cx.assume("rmp_serde / serde_repr / msgspec positional encoding contracts; runtime behaviour of the published crate is outside the tree")
